@@ -555,3 +555,341 @@ Proof.
       * destruct (is_billing f && x_offcycle cx && negb (p_offcycle_dq p)); [destruct H as [H|[]]; discriminate H|contradiction].
     + intros [Hh Hx]. right. right. left. rewrite Hh, Hx. left. reflexivity.
 Qed.
+
+(* ------------------------------------------------------------------ binary64 thresholds *)
+
+Lemma in_zrange : forall lo k z, In z (zrange lo k) <-> lo <= z < lo + Z.of_nat k.
+Proof.
+  intros lo k z. unfold zrange. rewrite in_map_iff. split.
+  - intros [i [<- Hi]]. apply in_seq in Hi. lia.
+  - intro H. exists (Z.to_nat (z - lo)). split; [lia|]. apply in_seq. lia.
+Qed.
+
+Lemma threshold_table_sound : forall bound thr, threshold_table bound thr = true ->
+  forall n d, 0 <= n <= Z.of_nat bound -> 1 <= d <= Z.of_nat bound ->
+  frac_lt thr n d = (10 * n <? 9 * d) /\ frac_gt thr n d = (9 * d <? 10 * n).
+Proof.
+  intros bound thr H n d Hn Hd. unfold threshold_table in H. rewrite forallb_forall in H.
+  assert (Hin : forall z, 0 <= z <= Z.of_nat bound -> In (z, of_Z z) (map (fun z => (z, of_Z z)) (zrange 0 (S bound)))).
+  { intros z Hz. apply in_map_iff. exists z. split; [reflexivity|]. apply in_zrange. lia. }
+  specialize (H (d, of_Z d) (Hin d ltac:(lia))). cbn [fst snd] in H.
+  apply orb_true_iff in H. destruct H as [H|H]; [apply Z.eqb_eq in H; lia|].
+  rewrite forallb_forall in H. specialize (H (n, of_Z n) (Hin n Hn)). cbn [fst snd] in H.
+  apply andb_true_iff in H. destruct H as [H1 H2]. apply eqb_prop in H1. apply eqb_prop in H2.
+  unfold frac_lt, frac_gt. split; assumption.
+Qed.
+
+Lemma daily_coverage_table : threshold_table THRESHOLD_BOUND gen_min_fraction_daily_coverage = true.
+Proof. vm_compute. reflexivity. Qed.
+
+Lemma hourly_coverage_table : threshold_table THRESHOLD_BOUND gen_min_fraction_hourly_temperature_coverage = true.
+Proof. vm_compute. reflexivity. Qed.
+
+Lemma threshold_bound_value : Z.of_nat THRESHOLD_BOUND = 1000.
+Proof. vm_compute. reflexivity. Qed.
+
+Lemma threshold_exact_l : forall n d, 0 <= n <= 1000 -> 1 <= d <= 1000 ->
+  frac_lt gen_min_fraction_daily_coverage n d = (10 * n <? 9 * d) /\
+  frac_gt gen_min_fraction_hourly_temperature_coverage n d = (9 * d <? 10 * n).
+Proof.
+  intros n d Hn Hd. rewrite <- threshold_bound_value in Hn, Hd. split.
+  - exact (proj1 (threshold_table_sound THRESHOLD_BOUND _ daily_coverage_table n d Hn Hd)).
+  - exact (proj2 (threshold_table_sound THRESHOLD_BOUND _ hourly_coverage_table n d Hn Hd)).
+Qed.
+
+(* the integer comparison of the model is the binary64 comparison of the code *)
+Lemma under_is_float_l : forall n d, 0 <= n <= 1000 -> 1 <= d <= 1000 ->
+  under code_params n (Some d) = frac_lt gen_min_fraction_daily_coverage n d.
+Proof.
+  intros n d Hn Hd. destruct (threshold_exact_l n d Hn Hd) as [E _]. rewrite E.
+  unfold under. cbn [p_cov_num p_cov_den code_params].
+  destruct (0 <? d) eqn:Ed; [reflexivity|apply Z.ltb_ge in Ed; lia].
+Qed.
+
+Lemma temp_valid_is_float_l : forall a b, 0 <= a -> 0 <= b -> 1 <= a + b <= 1000 ->
+  temp_valid90 (mkrow 0 1 None true (Some (a, b)) false true) = frac_gt gen_min_fraction_hourly_temperature_coverage a (a + b).
+Proof.
+  intros a b Ha Hb Hab. destruct (threshold_exact_l a (a + b) ltac:(lia) Hab) as [_ E]. rewrite E. reflexivity.
+Qed.
+
+(* ------------------------------------------------------------------ the magnitude of usage never changes the verdict *)
+
+Lemma shape_day_counts : forall rows rows', Forall2 same_shape rows rows' -> day_counts rows = day_counts rows'.
+Proof.
+  intros rows rows' H. induction H as [|r r' l l' Hr Hl IH]; [reflexivity|].
+  cbn [day_counts]. destruct Hl as [|r2 r2' l2 l2' Hr2 Hl2]; [reflexivity|].
+  rewrite IH. destruct Hr as [E1 _]. destruct Hr2 as [E2 _]. rewrite E1, E2. reflexivity.
+Qed.
+
+Lemma shape_map : forall (B : Type) (v : row -> B) rows rows', (forall r r', same_shape r r' -> v r = v r') ->
+  Forall2 same_shape rows rows' -> map v rows = map v rows'.
+Proof.
+  intros B v rows rows' Hv H. induction H as [|r r' l l' Hr Hl IH]; [reflexivity|].
+  cbn [map]. rewrite (Hv r r' Hr), IH. reflexivity.
+Qed.
+
+Lemma shape_usage_present : forall r r', same_shape r r' -> is_some (r_obs r) = is_some (r_obs r').
+Proof.
+  intros r r' H. destruct H as [_ [_ [_ [_ [_ [_ H]]]]]].
+  destruct (r_obs r), (r_obs r'); try contradiction; reflexivity.
+Qed.
+
+Lemma shape_valid_secs : forall v rows rows', (forall r r', same_shape r r' -> v r = v r') ->
+  Forall2 same_shape rows rows' -> valid_secs v rows = valid_secs v rows'.
+Proof.
+  intros v rows rows' Hv H. unfold valid_secs. rewrite (shape_map bool v rows rows' Hv H), (shape_day_counts rows rows' H).
+  reflexivity.
+Qed.
+
+Lemma shape_filter_count : forall (g v : row -> bool) rows rows',
+  (forall r r', same_shape r r' -> g r = g r') -> (forall r r', same_shape r r' -> v r = v r') ->
+  Forall2 same_shape rows rows' ->
+  count_if v (filter g rows) = count_if v (filter g rows') /\ length (filter g rows) = length (filter g rows').
+Proof.
+  intros g v rows rows' Hg Hv H. unfold count_if. induction H as [|r r' l l' Hr Hl IH]; [split; reflexivity|].
+  cbn [filter]. rewrite <- (Hg r r' Hr). destruct IH as [IH1 IH2]. destruct (g r).
+  - cbn [filter length]. rewrite <- (Hv r r' Hr). destruct (v r); cbn [length]; split; lia.
+  - split; assumption.
+Qed.
+
+Lemma existsb_map_eq : forall (A : Type) (f : A -> bool) l, existsb f l = existsb (fun b => b) (map f l).
+Proof. intros A f l. induction l as [|x l IH]; [reflexivity|]. simpl. rewrite IH. reflexivity. Qed.
+
+Lemma shape_monthly_bad : forall p v rows rows', (forall r r', same_shape r r' -> v r = v r') ->
+  Forall2 same_shape rows rows' -> monthly_bad p v rows = monthly_bad p v rows'.
+Proof.
+  intros p v rows rows' Hv H. unfold monthly_bad.
+  rewrite (existsb_map_eq Z _ months12), (existsb_map_eq Z (month_under p v rows') months12). f_equal.
+  apply map_ext. intro m. unfold month_under.
+  destruct (shape_filter_count (fun r => r_month r =? m) v rows rows') as [E1 E2]; try assumption.
+  - intros r r' Hr. destruct Hr as [_ [E _]]. rewrite E. reflexivity.
+  - rewrite E1, E2. reflexivity.
+Qed.
+
+Lemma shape_has_negative : forall rows rows', Forall2 same_shape rows rows' -> has_negative rows = has_negative rows'.
+Proof.
+  intros rows rows' H. unfold has_negative. rewrite (existsb_map_eq row _ rows), (existsb_map_eq row _ rows'). f_equal.
+  apply shape_map; [|exact H]. intros r r' Hr. destruct Hr as [_ [_ [_ [_ [_ [_ Hr]]]]]].
+  destruct (r_obs r) as [q|], (r_obs r') as [q'|]; try contradiction; [|reflexivity].
+  destruct (Qle_bool (0 # 1) q) eqn:B; destruct (Qle_bool (0 # 1) q') eqn:B'; try reflexivity; exfalso.
+  - apply Qle_bool_iff in B. assert (Hlt : (q' < 0)%Q).
+    { apply Qnot_le_lt. intro Hle. apply Qle_bool_iff in Hle. congruence. }
+    apply Hr in Hlt. exact (Qlt_not_le _ _ Hlt B).
+  - apply Qle_bool_iff in B'. assert (Hlt : (q < 0)%Q).
+    { apply Qnot_le_lt. intro Hle. apply Qle_bool_iff in Hle. congruence. }
+    apply Hr in Hlt. exact (Qlt_not_le _ _ Hlt B').
+Qed.
+
+Lemma shape_complete_ts : forall o g rows rows', Forall2 same_shape rows rows' ->
+  complete_ts (mkframe o g rows) = complete_ts (mkframe o g rows').
+Proof.
+  intros o g rows rows' H. unfold complete_ts. cbn [f_rows].
+  induction H as [|r r' l l' Hr Hl IH]; [reflexivity|]. cbn [filter].
+  assert (Ec : complete (mkframe o g (r :: l)) r = complete (mkframe o g (r' :: l')) r').
+  { unfold complete. cbn [f_has_obs f_has_ghi]. rewrite (shape_usage_present r r' Hr).
+    destruct Hr as [_ [_ [E3 [E4 [E5 [E6 _]]]]]]. rewrite E3, E4, E5, E6. reflexivity. }
+  assert (Ec1 : forall x l1 l2, complete (mkframe o g l1) x = complete (mkframe o g l2) x) by reflexivity.
+  rewrite (Ec1 r (r :: l) l) in *. rewrite (Ec1 r' (r' :: l') l') in *.
+  rewrite <- Ec. destruct (complete (mkframe o g l) r).
+  - cbn [map]. destruct Hr as [E1 _]. rewrite E1. f_equal.
+    rewrite (filter_ext (complete (mkframe o g (r :: l))) (complete (mkframe o g l))) by reflexivity.
+    rewrite (filter_ext (complete (mkframe o g (r' :: l'))) (complete (mkframe o g l'))) by reflexivity. exact IH.
+  - rewrite (filter_ext (complete (mkframe o g (r :: l))) (complete (mkframe o g l))) by reflexivity.
+    rewrite (filter_ext (complete (mkframe o g (r' :: l'))) (complete (mkframe o g l'))) by reflexivity. exact IH.
+Qed.
+
+Lemma shape_counts : forall p is_rep o g rows rows', Forall2 same_shape rows rows' ->
+  compute_counts p is_rep (mkframe o g rows) = compute_counts p is_rep (mkframe o g rows').
+Proof.
+  intros p is_rep o g rows rows' H. unfold compute_counts, n_days_total. cbn [f_rows].
+  rewrite (shape_complete_ts o g rows rows' H).
+  assert (Ht : forall r r', same_shape r r' -> valid_temp_row p r = valid_temp_row p r').
+  { intros r r' Hr. unfold valid_temp_row. destruct Hr as [_ [_ [_ [E _]]]]. rewrite E. reflexivity. }
+  assert (Hm : forall r r', same_shape r r' -> valid_meter_row r = valid_meter_row r') by exact shape_usage_present.
+  assert (Hv : forall r r', same_shape r r' -> valid_row p is_rep r = valid_row p is_rep r').
+  { intros r r' Hr. unfold valid_row. rewrite (Ht r r' Hr), (Hm r r' Hr). reflexivity. }
+  rewrite (shape_valid_secs _ rows rows' Hv H), (shape_valid_secs _ rows rows' Hm H), (shape_valid_secs _ rows rows' Ht H).
+  reflexivity.
+Qed.
+
+Lemma usage_magnitude_never_changes_verdict_l : forall p f w el cx o g rows rows',
+  Forall2 same_shape rows rows' ->
+  dq_of (dataclass p f w el cx (mkframe o g rows)) = dq_of (dataclass p f w el cx (mkframe o g rows')).
+Proof.
+  intros p f w el cx o g rows rows' H. unfold dataclass, dataclass_with_counts. cbn [f_has_obs].
+  destruct (negb (is_reporting_flag p f w) && negb o); [reflexivity|].
+  rewrite (shape_counts p (is_reporting_flag p f w) o g rows rows' H).
+  set (c := compute_counts p (is_reporting_flag p f w) (mkframe o g rows')).
+  assert (E : fst (run_sequence p (is_reporting_flag p f w) (electric_flag f w el) (mkframe o g rows) c (sequence_of p f w))
+            = fst (run_sequence p (is_reporting_flag p f w) (electric_flag f w el) (mkframe o g rows') c (sequence_of p f w))).
+  { unfold run_sequence. cbn [fst]. rewrite !flat_map_concat_map. f_equal. apply map_ext. intro k. rewrite !run_check_fst.
+    assert (Ec : check_cond p (is_reporting_flag p f w) (electric_flag f w el) (mkframe o g rows) c k
+               = check_cond p (is_reporting_flag p f w) (electric_flag f w el) (mkframe o g rows') c k).
+    { destruct k; cbn [check_cond f_rows f_has_ghi]; try reflexivity.
+      - rewrite (shape_has_negative rows rows' H). reflexivity.
+      - rewrite (shape_monthly_bad p r_temp rows rows'); [reflexivity| |exact H].
+        intros r r' Hr. destruct Hr as [_ [_ [E _]]]. exact E.
+      - rewrite (shape_monthly_bad p valid_meter_row rows rows'); [reflexivity| |exact H]. exact shape_usage_present.
+      - rewrite (shape_monthly_bad p r_ghi rows rows'); [reflexivity| |exact H].
+        intros r r' Hr. destruct Hr as [_ [_ [_ [_ [E _]]]]]. exact E. }
+    rewrite Ec. reflexivity. }
+  destruct (run_sequence p (is_reporting_flag p f w) (electric_flag f w el) (mkframe o g rows) c (sequence_of p f w)) as [d1 w1].
+  destruct (run_sequence p (is_reporting_flag p f w) (electric_flag f w el) (mkframe o g rows') c (sequence_of p f w)) as [d2 w2].
+  cbn [fst] in E. cbn [dq_of]. rewrite E. reflexivity.
+Qed.
+
+(* ------------------------------------------------------------------ the whole statement for the code as it is: partial + refuted *)
+
+(* what the statement demands of the six data classes, for the parameters the code has now *)
+Definition statement_at (f : family) (w : period) (el : bool) (cx : ctx) (fr : frame) : Prop :=
+  exists dq ws, dataclass code_params f w el cx fr = Accepted dq ws /\
+    forall n, In n dq <-> match w with Baseline => violates_baseline f el fr n | Reporting => violates_reporting f fr n end.
+
+(* the region in which the code satisfies it: a usage column for baseline data; for reporting data the criteria class
+   is told that it is reporting data and the usage column is absent or complete; no off-cycle billing read
+   (or off-cycle reads go to the warnings) *)
+Definition guard (f : family) (w : period) (cx : ctx) (fr : frame) : Prop :=
+  match w with
+  | Baseline => f_has_obs fr = true
+  | Reporting => gen_reporting_flag f = true /\ usage_irrelevant fr
+  end /\ (gen_offcycle_dq = false \/ f <> Billing \/ x_offcycle cx = false).
+
+Lemma statement_partial_l : forall f w el cx fr, guard f w cx fr -> statement_at f w el cx fr.
+Proof.
+  intros f w el cx fr [Hw Hoff]. unfold statement_at.
+  assert (Hno : forall n, ~ (n = OffcycleReads /\ f = Billing /\ x_offcycle cx = true /\ gen_offcycle_dq = true)).
+  { intros n [_ [Hb [Hx Hg]]]. destruct Hoff as [H|[H|H]]; congruence. }
+  destruct w.
+  - destruct (baseline_dq_exact_code_l f el cx fr Hw) as [dq [ws [E [_ Hm]]]]. exists dq, ws. split; [exact E|].
+    intro n. rewrite Hm. specialize (Hno n). tauto.
+  - destruct Hw as [Hf Hu]. destruct (reporting_dq_exact_code_l f el cx fr Hf Hu) as [dq [ws [E [_ Hm]]]].
+    exists dq, ws. split; [exact E|]. intro n. rewrite Hm. specialize (Hno n). tauto.
+Qed.
+
+(* example frames: n daily rows from the epoch, all in month 1 *)
+Definition ex_row (i : nat) (o : option Q) (t : bool) : row :=
+  mkrow (86400 * Z.of_nat i) 1 o t (Some (if t then (1, 0) else (0, 1))) false true.
+Definition ex_full (n : nat) : list row := map (fun i => ex_row i (Some (5 # 1)%Q) true) (seq 0 n).
+(* usage present on the first k rows only *)
+Definition ex_partial (n k : nat) : list row :=
+  map (fun i => ex_row i (if Nat.ltb i k then Some (5 # 1)%Q else None) true) (seq 0 n).
+(* temperature missing on rows a .. a+k-1 *)
+Definition ex_temp_gap (n a k : nat) (o : option Q) : list row :=
+  map (fun i => ex_row i o (negb (Nat.leb a i && Nat.ltb i (a + k)))) (seq 0 n).
+Definition cx0 : ctx := mkctx false false false.
+Definition cx_off : ctx := mkctx false false true.
+
+(* (1) a baseline without any usage: the data class drops the column and the criteria class raises *)
+Lemma refuted_no_usage_l :
+  dataclass code_params Daily Baseline true cx0 (mkframe false false (map (fun i => ex_row i None true) (seq 0 340)))
+  = Raised AttributeError.
+Proof. reflexivity. Qed.
+
+(* (2) off-cycle billing reads change the verdict (when they are appended to .disqualification) *)
+Lemma refuted_offcycle_l : gen_offcycle_dq = true ->
+  In OffcycleReads (dq_of (dataclass code_params Billing Baseline true cx_off (mkframe true false (ex_full 340)))) /\
+  dq_of (dataclass code_params Billing Baseline true cx0 (mkframe true false (ex_full 340))) = [] /\
+  ~ violates_baseline Billing true (mkframe true false (ex_full 340)) OffcycleReads.
+Proof.
+  intro H. split; [|split].
+  - assert (E : dq_of (dataclass code_params Billing Baseline true cx_off (mkframe true false (ex_full 340)))
+               = if gen_offcycle_dq then [OffcycleReads] else []) by (vm_compute; reflexivity).
+    rewrite E, H. left. reflexivity.
+  - vm_compute. reflexivity.
+  - intro V. exact V.
+Qed.
+
+(* (3) hourly reporting data without usage, temperature complete: reported as "no data" *)
+Lemma refuted_hourly_reporting_l : gen_reporting_flag Hourly = false ->
+  let fr := mkframe true false (map (fun i => ex_row i None true) (seq 0 340)) in
+  In NoData (dq_of (dataclass code_params Hourly Reporting true cx0 fr)) /\ ~ violates_reporting Hourly fr NoData.
+Proof.
+  intro H. cbn zeta. split.
+  - assert (E : dq_of (dataclass code_params Hourly Reporting true cx0
+                         (mkframe true false (map (fun i => ex_row i None true) (seq 0 340))))
+               = if gen_reporting_flag Hourly then [] else [NoData; TooManyDaysMissingData; TooManyDaysMissingTemperature])
+      by (vm_compute; reflexivity).
+    rewrite E, H. left. reflexivity.
+  - intro V. cbn [violates_reporting] in V.
+    specialize (V (ex_row 0 None true)). cbn [f_rows] in V.
+    assert (Hin : In (ex_row 0 None true) (map (fun i => ex_row i None true) (seq 0 340))).
+    { apply in_map_iff. exists 0%nat. split; [reflexivity|]. apply in_seq. lia. }
+    specialize (V Hin). vm_compute in V. discriminate V.
+Qed.
+
+(* (4) daily reporting data, usage on the first 100 of 300 days, temperature missing on 31 days: the criteria say
+   "under 90 % of days with valid temperature" (268 of 300), the code measures against the 100 days with usage *)
+Definition ex_rep_partial : frame :=
+  mkframe true false
+    (map (fun i => ex_row i (if Nat.ltb i 100 then Some (5 # 1)%Q else None) (negb (Nat.leb 150 i && Nat.ltb i 181))) (seq 0 300)).
+
+Lemma refuted_reporting_partial_usage_l :
+  dq_of (dataclass code_params Daily Reporting true cx0 ex_rep_partial) = [] /\
+  violates_reporting Daily ex_rep_partial TooManyDaysMissingTemperature.
+Proof.
+  split; [vm_compute; reflexivity|].
+  unfold violates_reporting, under90.
+  assert (E : span_of (has_data_reporting ex_rep_partial) (f_rows ex_rep_partial) = Some 300) by (vm_compute; reflexivity).
+  assert (E2 : whole_days temp_valid90 (f_rows ex_rep_partial) = 268) by (vm_compute; reflexivity).
+  rewrite E, E2. lia.
+Qed.
+
+Lemma statement_refuted_l : ~ (forall f w el cx fr, statement_at f w el cx fr).
+Proof.
+  intro S. destruct (S Daily Baseline true cx0 (mkframe false false (map (fun i => ex_row i None true) (seq 0 340))))
+    as [dq [ws [E _]]].
+  rewrite refuted_no_usage_l in E. discriminate E.
+Qed.
+
+(* ------------------------------------------------------------------ non-vacuity witnesses *)
+
+(* a 340-day baseline with everything present: qualified; the guard holds *)
+Lemma ex_baseline_clean : guard Daily Baseline cx0 (mkframe true false (ex_full 340)) /\
+  dataclass code_params Daily Baseline false cx0 (mkframe true false (ex_full 340)) = Accepted [] [].
+Proof. split; [split; [reflexivity|right; left; discriminate]|vm_compute; reflexivity]. Qed.
+
+(* 340 days, temperature missing on 34 days: 305 valid whole days of 340 -> under 90 %; on 33 days: 306 -> exactly 90 %, passes *)
+Lemma ex_baseline_threshold :
+  dq_of (dataclass code_params Daily Baseline false cx0 (mkframe true false (ex_temp_gap 340 100 34 (Some (5 # 1)%Q))))
+  = [TooManyDaysMissingData; TooManyDaysMissingTemperature; MissingMonthlyTemperature] /\
+  dq_of (dataclass code_params Daily Baseline false cx0 (mkframe true false (ex_temp_gap 340 100 33 (Some (5 # 1)%Q))))
+  = [] /\
+  whole_days temp_valid90 (ex_temp_gap 340 100 33 (Some (5 # 1)%Q)) = 306.
+Proof. split; [|split]; vm_compute; reflexivity. Qed.
+
+(* span limits: 328 days too short, 329 and 365 accepted, 366 too long *)
+Lemma ex_span_limits :
+  map (fun n => dq_of (dataclass code_params Daily Baseline true cx0 (mkframe true false (ex_full n)))) [328; 329; 365; 366]%nat
+  = [[IncorrectNumberOfTotalDays]; []; []; [IncorrectNumberOfTotalDays]].
+Proof. vm_compute. reflexivity. Qed.
+
+(* reporting data: 300 days, temperature missing on 31 days, no usage column: the guard holds and both 90 % criteria fire *)
+Lemma ex_reporting : guard Daily Reporting cx0 (mkframe false false (ex_temp_gap 300 150 31 None)) \/ gen_reporting_flag Daily = false.
+Proof.
+  destruct (gen_reporting_flag Daily) eqn:E; [left|right; reflexivity].
+  split; [split; [exact E|left; reflexivity]|right; left; discriminate].
+Qed.
+
+Lemma ex_reporting_verdict :
+  dq_of (dataclass published Daily Reporting true cx0 (mkframe false false (ex_temp_gap 300 150 31 None)))
+  = [TooManyDaysMissingData; TooManyDaysMissingTemperature; MissingMonthlyTemperature].
+Proof. vm_compute. reflexivity. Qed.
+
+(* negative usage: disqualifies gas, not electricity; an extreme value only warns *)
+Definition ex_negative : list row :=
+  map (fun i => ex_row i (Some (if Nat.eqb i 7 then (-3 # 1) else if Nat.eqb i 9 then (1000 # 1) else (5 # 1))%Q) true) (seq 0 340).
+Lemma ex_negative_verdicts :
+  dataclass code_params Daily Baseline false cx0 (mkframe true false ex_negative) = Accepted [NegativeMeterValues] [ExtremeValues] /\
+  dataclass code_params Daily Baseline true cx0 (mkframe true false ex_negative) = Accepted [] [ExtremeValues].
+Proof. split; vm_compute; reflexivity. Qed.
+
+Lemma ex_same_shape : Forall2 same_shape ex_negative
+  (map (fun i => ex_row i (Some (if Nat.eqb i 7 then (-1 # 2) else (1 # 1))%Q) true) (seq 0 340)).
+Proof.
+  unfold ex_negative. generalize (seq 0 340). intro l. induction l as [|i l IH]; [constructor|].
+  cbn [map]. constructor; [|exact IH].
+  unfold same_shape, ex_row. cbn [r_ts r_month r_temp r_cov r_ghi r_aux r_obs].
+  repeat (split; [reflexivity|]).
+  destruct (Nat.eqb i 7); [split; intros _; reflexivity|].
+  destruct (Nat.eqb i 9); split; intro H; vm_compute in H; discriminate H.
+Qed.
